@@ -102,7 +102,10 @@ void reindent_line(Chunk *pc, size_t column)
       }
       else
       {
-         pc->SetColumn(max(pc->GetColumn() + col_delta, min_col));
+         // moving left never goes beyond the first column (the sum is unsigned)
+         const size_t moved = (  col_delta >= 0
+                              || (size_t)(-col_delta) < pc->GetColumn()) ? pc->GetColumn() + col_delta : 0;
+         pc->SetColumn(max(moved, min_col));
 
          LOG_FMT(LINDLINED, "%s(%d): set column of ", __func__, __LINE__);
 
